@@ -36,7 +36,7 @@ RULE = ('cases = (recording, configuration) x runs (nprocesses, executor, task o
         'shortest / just complete last batch, single batch down to ns = SAMPLES_TAPER, NBATCH barely above two tapers.  Every recording is run '
         'with 1 worker and with the largest admissible worker count (ns >= P*NBATCH, P <= 8) and others in between, x {append to a first '
         'run, a destination that already holds a LONGER unrelated output (stale out.bin / ap_rms.bin / ap_time.bin; non-append runs must give what they give in an empty directory), ns2add, k-filter or CAR, whitening none / scalar / identity / dense / penta-diagonal, per-channel AP gains uniform / two halves / '
-        'all mixed (imro table), nc_out without sync, .cbin input, channel rejection (thorough)}.  Independently of the values the FORM of the '
+        'all mixed (imro table), nc_out without sync, (thorough tier and escalated quick runs only) one recording long enough that with float64 output the last worker writes beyond byte 2^31 (default NBATCH, filters replaced by the identity, sync column = sample index), .cbin input, channel rejection (thorough)}.  Independently of the values the FORM of the '
         'call is drawn (tags form:*): output dtype int16 / float32 / int32 / float64 (row bytes of the model = nc_out x item size of the OUTPUT '
         'dtype), sr_file and output_file as str or Path, output_qc_path given, reader_kwargs given, butter_kwargs default / default given '
         'explicitly / non-default, k_kwargs default given explicitly, h passed explicitly, nbatch and nprocesses as Python or NumPy integers, '
@@ -1067,6 +1067,91 @@ def _lean_parallel(ctx, lines, shards=4):
     return ans
 
 
+# ---------------------------------------------------------------------------------------------
+# scale: file positions beyond 2^31 bytes (thorough tier, or a quick run escalated by a broken tie)
+# ---------------------------------------------------------------------------------------------
+LARGE_N = 65536            # the library's default batch size
+
+
+def _large_ns(T, P, rb):
+    """smallest multiple of N/2 with ns >= P*N for which the LAST worker starts writing at or beyond byte 2^31 + 2^20"""
+    N = LARGE_N
+    ns = P * N
+    while True:
+        chunk = ns // P
+        nb = -((-(P - 1) * chunk) // N)
+        if ((N - 2 * T) * nb + T) * rb >= 2 ** 31 + 2 ** 20:
+            return ns
+        ns += N // 2
+
+
+def oracle_large(inp):
+    """C06 at scale, on the real code: a recording long enough that (with float64 output) the last of P workers writes beyond
+    byte 2^31.  Content: a ramp on every voltage channel, sync word = sample index mod 2^16, so that every output row identifies the
+    input row it came from.  To keep the run short the temporal filter and the spatial filter are replaced by the identity in this
+    process (they do not decide where a row is written); everything else is the real function.  Judged: the call returns, the output
+    has ns rows, the sync column equals the source's at every row, saturation has ns entries, RMS one row per batch."""
+    _limit_threads()
+    import scipy.signal
+    from ibldsp import voltage
+    from ibldsp.utils import WindowGenerator
+    T, P = int(inp.get('T', 1024)), int(inp['P'])
+    N = LARGE_N
+    odt = np.dtype('float64')
+    rb = NC * odt.itemsize
+    ns = int(inp['ns'])
+    tmp = Path(tempfile.mkdtemp(prefix='c06L_'))
+    saved = (scipy.signal.sosfiltfilt, voltage.car)
+    try:
+        t = np.arange(ns, dtype=np.int64)
+        D = np.empty((ns, NC), dtype=np.int16)
+        D[:, :NCV] = ((t % 201) - 100).astype(np.int16)[:, None]
+        D[:, NCV] = (t % 65536).astype(np.uint16).view(np.int16)
+        D.tofile(tmp / 'rec.ap.bin')
+        (tmp / 'rec.ap.meta').write_text(_meta_text(ns))
+        sync = D[:, NCV].copy()
+        del D
+        scipy.signal.sosfiltfilt = lambda sos, x, *a, **k: x
+        voltage.car = lambda x, *a, **k: x
+        out = tmp / 'out'
+        out.mkdir()
+        r = run_destripe(tmp / 'rec.ap.bin', out, N, P, mode='seq', order=inp.get('order'), form={'dtype': 'float64'},
+                         k_filter=False, reject_channels=False)
+        if r['error']:
+            return f'{P} workers, {ns} samples, float64 output ({ns * rb} bytes): raised {r["error"]}'
+        size = (out / 'out.bin').stat().st_size
+        if size != ns * rb:
+            return f'{P} workers, {ns} samples, float64 output: the file has {size} bytes = {size / rb} rows, expected {ns}'
+        mm = np.memmap(out / 'out.bin', dtype=odt, mode='r', shape=(ns, NC))
+        got = np.asarray(mm[:, NCV])
+        bad = np.where(got != sync.astype(odt))[0]
+        del mm
+        if bad.size:
+            b = int(bad[0])
+            return (f'{P} workers, {ns} samples, float64 output ({ns * rb} bytes, worker start positions beyond byte 2^31): the sync column differs '
+                    f'from the source at {bad.size} rows, first at row {b} (byte {b * rb}): {got[b]} instead of {int(sync[b])}')
+        B = len(list(WindowGenerator(ns, N, 2 * T).firstlast))
+        o = read_outputs(out, None)
+        qc = [None if o[k] is None else tuple(o[k].shape) for k in ('sat', 'rms', 'times')]
+        if qc != [(ns,), (B, NCV), (B,)]:
+            return f'{P} workers, {ns} samples: QC shapes (saturation, rms, timestamps) = {qc}, expected {[(ns,), (B, NCV), (B,)]}'
+        return None
+    finally:
+        scipy.signal.sosfiltfilt, voltage.car = saved
+        shutil.rmtree(tmp, ignore_errors=True)
+
+
+def _large_case(payload):
+    import warnings
+    warnings.filterwarnings('ignore')
+    t0 = time.time()
+    try:
+        r = oracle_large(payload)
+    except Exception as e:      # noqa
+        r = f'harness: {type(e).__name__}: {e}'
+    return r, time.time() - t0
+
+
 def correspondence(ctx):
     cases, T = gen_cases(ctx)
     lines, keys = _model_lines(cases, T)
@@ -1079,13 +1164,25 @@ def correspondence(ctx):
     payloads = [{'case': c, 'model': m, 'T': T} for c, m in zip(cases, models)]
     # longest first
     order = sorted(range(len(cases)), key=lambda i: -cases[i]['ns'] * len(cases[i]['runs']))
+    rng_large = ctx.subrng(9106)
     t0 = time.time()
     results = [None] * len(cases)
     with _pool(_nproc()) as ex:
+        large = None
+        if not ctx.quick:      # thorough tier, or a quick run escalated by a broken tie
+            Pl = int(rng_large.integers(3, 9))
+            linp = {'large': 1, 'P': Pl, 'T': T, 'ns': _large_ns(T, Pl, NC * 8), 'order': [int(x) for x in rng_large.permutation(Pl)]}
+            large = (linp, ex.submit(_large_case, linp))
         futs = {ex.submit(run_case, payloads[i]): i for i in order}
         for f in concurrent.futures.as_completed(futs):
             results[futs[f]] = f.result()
         t_last = time.time() - t0
+        if large is not None:
+            linp, fut = large
+            res, wall = fut.result()
+            ctx.compare('large-offset', {'op': 'large-offset', **linp}, res or 'holds', 'holds', nontrivial=True,
+                        tags=('scale: last worker writes beyond byte 2^31 (float64 output, default NBATCH)', f'P={linp["P"]}'))
+            ctx.note(f'large-offset case: {linp["ns"]} samples, {linp["P"]} workers, {wall:.0f}s')
     t_run = time.time() - t0
     ctx.note(f'last case finished after {t_last:.1f}s, pool closed after {t_run:.1f}s')
     exact = inexact = same = differs = 0
@@ -1122,6 +1219,8 @@ def _oracle_desc():
 def oracle(inp):
     """Returns None when the property holds on this input, else a description of what fails.
     inp: ns, N, P, seed, T, kfilter, wrot, gains, ns2add, sat, append (None or {ns, N, P, ns2add}), nc_out (None or int)."""
+    if inp.get('large'):
+        return oracle_large(inp)
     _limit_threads()
     from ibldsp.utils import WindowGenerator
     ns, N, P, T = int(inp['ns']), int(inp['N']), int(inp['P']), int(inp.get('T', 1024))
@@ -1277,7 +1376,7 @@ def _inputs_from_mismatches(ctx, T):
     out, seen = [], set()
     for m in ctx.mismatches[:60]:
         c = m['case'].get('case') if 'case' in m['case'] else m['case']
-        if not isinstance(c, dict) or 'ns' not in c:
+        if not isinstance(c, dict) or 'ns' not in c or 'N' not in c:
             continue
         P = int(c.get('P', 1))
         inp = {'ns': int(c['ns']), 'N': int(c['N']), 'P': P, 'seed': int(c.get('seed', 0)), 'T': T, 'kfilter': int(c.get('kfilter', 0)),
@@ -1296,6 +1395,16 @@ def search(ctx, reasons):
     T = int(ctx.consts.get('DESTRIPE_TAPER', 1024))
     # the saturated stretches of the generated cases are not part of the mismatch descriptions: recover them
     sat_of = {(c['ns'], c['N'], c['seed']): c.get('sat') for c in getattr(ctx, 'c06_cases', [])}
+    for m in ctx.mismatches:
+        if m.get('op') == 'large-offset':
+            linp = {k: v for k, v in m['case'].items() if k != 'op'}
+            with _pool(1) as ex:
+                r = list(ex.map(_oracle_safe, [linp]))[0]
+            if r:
+                return {'input': linp, 'observed': r, 'expected': _oracle_desc() + ' — at a scale where file positions exceed 2^31 bytes',
+                        'how': 'harness/props/c06.py oracle_large(input): ramp recording, temporal and spatial filters replaced by the identity '
+                               '(they do not decide where rows are written), real decompress_destripe_cbin(nbatch=65536, dtype=float64, '
+                               'nprocesses=P) run with the sequential stand-in in the given task order; ./check C06 --replay <this file>'}
     cands = _inputs_from_mismatches(ctx, T)
     for c in cands:
         c['sat'] = sat_of.get((c['ns'], c['N'], c['seed'])) or []
